@@ -55,6 +55,11 @@ RatioProd(ch, i) == IF i = N(ch) THEN "1" ELSE RMul(Ratio(ch, i + 1), RatioProd(
 (* ---- the user's load function (harness-owned parametric family) ---- *)
 LoadFn(ld, t, th, w) == RAdd(RAdd(RAdd(RAdd(ld.c0, RMul(ld.c1, w)), RMul(ld.c2, th)), RMul(ld.c3, t)),
                              IF RGe(t, ld.ts) THEN ld.cs ELSE "0")
+\* the step is a discrete decision (t >= ts): an instant within rounding distance of the step time may be on either side of it
+\* (20 ms is exactly 1/50 s, the float 0.02 is not) - trace validation (eps > 0) then accepts both values, the design model (eps = 0) does not
+LoadNearStep(ld, t) == RLe(RAbs(RSub(t, ld.ts)), RMul("1e-9", RMax(RAbs(ld.ts), "1e-300")))
+LoadFnOtherSide(ld, t, th, w) == RAdd(RAdd(RAdd(RAdd(ld.c0, RMul(ld.c1, w)), RMul(ld.c2, th)), RMul(ld.c3, t)),
+                                      IF RGe(t, ld.ts) THEN "0" ELSE ld.cs)
 LoadScale(ld, t, th, w) == RAdd(RAdd(RAdd(RAdd(RAbs(ld.c0), RAbs(RMul(ld.c1, w))), RAbs(RMul(ld.c2, th))), RAbs(RMul(ld.c3, t))), RAbs(ld.cs))
 
 \* (Tiny: absolute slack for values at the bottom of the double range, where products lose their relative precision;
@@ -79,7 +84,9 @@ TorqueFails(ch, ld, X, eps) ==
   LET n == N(ch)  m == MotorOf(ch) IN
   { c[1] : c \in { c \in
      { <<"DriveMotor", Cl(X.el[1].Td, Torque(m, X.el[1].spd, X.pwm), eps, TorqueScale(m, X.el[1].spd, X.pwm))>>,
-       <<"LoadFunction", Cl(X.el[n].Tl, LoadFn(ld, X.t, X.el[n].pos, X.el[n].spd), eps, LoadScale(ld, X.t, X.el[n].pos, X.el[n].spd))>> }
+       <<"LoadFunction", \/ Cl(X.el[n].Tl, LoadFn(ld, X.t, X.el[n].pos, X.el[n].spd), eps, LoadScale(ld, X.t, X.el[n].pos, X.el[n].spd))
+                         \/ (eps # "0" /\ LoadNearStep(ld, X.t)
+                             /\ Cl(X.el[n].Tl, LoadFnOtherSide(ld, X.t, X.el[n].pos, X.el[n].spd), eps, LoadScale(ld, X.t, X.el[n].pos, X.el[n].spd)))>> }
      \cup { <<"DriveDown@" \o ToString(i), ClR(X.el[i].Td, RMul(RMul(X.el[i - 1].Td, Eff(ch, i)), Ratio(ch, i)), eps)>> : i \in 2..n }
      \cup { <<"LoadUp@" \o ToString(i), RSign(Eff(ch, i + 1)) = 0 \/
                   ClR(X.el[i].Tl, RDiv(RDiv(X.el[i + 1].Tl, Eff(ch, i + 1)), Ratio(ch, i + 1)), eps)>> : i \in 1..(n - 1) }
